@@ -7,6 +7,15 @@ HERE = os.path.dirname(os.path.dirname(os.path.abspath(__file__)))
 
 # id -> (engine, technique, level text, level note, design ref)
 CHECKS = {
+    "C01": ("XH", "CrossHair-driven exhaustive enumeration (z3 choice variables) of grammar-family holes; real parser on ALL token strings up to the length bound, independent derivation checker",
+            "bounded exhaustive exploration with exhaustion certificate: every instantiation of 17 shape families x both smart_factorization settings x all token strings of length <= 4 (quick) / 6 (thorough)",
+            "structural property: the solver enumerates; step budget per parse; real tokenizer with synonym and keyword terminals", "DESIGN.md 3/C01"),
+    "C02": ("XH", "as C01, with independent FIRST/FOLLOW/predict and fixpoint recogniser as oracles",
+            "bounded exhaustive exploration: for every family grammar that is LL(1) as written or whose table the parser reports conflict-free, acceptance == sentence-hood for all strings up to the bound, "
+            "unique valid tree, identical for both smart settings", "as C01; oracles independent of the implementation", "DESIGN.md 3/C02"),
+    "C03": ("XH", "as C01 plus z3-chosen symbol-name permutations; cycle oracle over the nullable-prefix graph; step-budgeted real parse loop",
+            "bounded exhaustive exploration: GrammarIsRecursive <=> cycle, for every family grammar under 7 name assignments (all alphabetical orders of start/nullable/recursive symbols); accepted grammars terminate on all strings up to the bound",
+            "non-termination is observed as exceeding 20000 parser steps on inputs of <= 5 tokens", "DESIGN.md 3/C03"),
     "C14": ("XH", "CrossHair-driven exhaustive enumeration (z3 choice variables) of description sets x splits over explicit config / components x registration orders; "
             "real ColorsConfig/Palette code vs an order-free reference resolver",
             "bounded exhaustive exploration with exhaustion certificate over 3 ids (incl. dotted, built-in parent, unknown parent), all 6 registration orders, explicit-wins and no_color twins; "
